@@ -458,3 +458,34 @@ func originUnwritten(f *ir.Func, e ast.Expr, at *cfgx.Node) ast.Expr {
 	}
 	return defs[0].RHS
 }
+
+
+// calleesThrough: the functions a call can invoke when it goes through a local
+// function variable: every definition of the variable is the name of a
+// declared function (`f := a; if c { f = b }; f(x)`). Empty when the callee is
+// not of that form.
+func calleesThrough(f *ir.Func, call *ast.CallExpr) []*types.Func {
+	id, ok := ast.Unparen(call.Fun).(*ast.Ident)
+	if !ok {
+		return nil
+	}
+	v, ok := f.ObjOf(id).(*types.Var)
+	if !ok || v.IsField() {
+		return nil
+	}
+	var out []*types.Func
+	for _, d := range wholeDefs(f, v) {
+		if d.RHS == nil {
+			if vs, isSpec := d.Stmt.(*ast.ValueSpec); isSpec && len(vs.Values) == 0 {
+				continue
+			}
+			return nil
+		}
+		fn := funcRef(f, d.RHS)
+		if fn == nil {
+			return nil
+		}
+		out = append(out, fn)
+	}
+	return out
+}
